@@ -899,7 +899,15 @@ def extract_segment(relpath, qual, ann):
         rett = ann.get("seg_ret", rett)
     name = ann["seg_name"]
     retname = ann.get("ret", "r")
-    head = f"pub fn {name}({ann['seg_params'].strip()}) -> ({retname}: {rett})\n" + "".join(spec) + "{\n" + (ann.get("head", "").rstrip() + "\n" if ann.get("head") else "")
+    params = ann["seg_params"].strip()
+    for op in [x.strip() for x in (ann.get("seg_optparams") or "").split(";") if x.strip()]:
+        # a local the segment normally declares itself: if its `let` has moved out of the range it is a value computed BEFORE the
+        # segment, i.e. an arbitrary parameter (the contract must then hold for every value of it)
+        nm = re.match(r"^(?:mut\s+)?(\w+)\s*:", op).group(1)
+        if not re.search(r"\blet\s+(mut\s+)?" + nm + r"\b", body_text):
+            params = params.rstrip(", ") + ", " + op
+            ed.log.append({"file": relpath, "line": _srcline(src, s0), "rule": "M4", "note": f"`{nm}` is no longer declared inside the range: taken as an arbitrary parameter of `{ann['seg_name']}`"})
+    head = f"pub fn {name}({params}) -> ({retname}: {rett})\n" + "".join(spec) + "{\n" + (ann.get("head", "").rstrip() + "\n" if ann.get("head") else "")
     tailtxt = ("\n" + ann["seg_tail"].rstrip() if ann.get("seg_tail") else "") + "\n}\n"
     lm0 = line_map(body_text, segs, src)
     text = head + body_text + tailtxt
